@@ -356,6 +356,32 @@ func genLattice(a *Args, r *Rng, emit func(c *lcase), history func(base lcase, s
 		}
 	}
 
+	// ---- nil-plugin: an in-process verification plugin answering (nil, nil) to get-plugin-metadata or to
+	//      verify-signature (fix 686cc56: ordinary failures) x level x entry x capabilities x critical attribute ----
+	for li, l := range lv {
+		for _, entry := range []string{"Verify", "VerifyBlob", "NVerify", "NVerifyBlob"} {
+			for ci, pm := range []pmCfg{{Kind: 2, Meta: 1}, pmOK("TI"), pmOK("Rev"), pmOK("TI", "Rev"), pmOK("Other", "Rev", "TI")} {
+				for _, crit := range []bool{false, true} {
+					if !thorough && (entry == "NVerify" || entry == "NVerifyBlob") && (li+ci)%2 == 1 {
+						continue
+					}
+					s := okSc()
+					s.PAttr, s.Crit = 2, crit
+					if pm.Meta == 2 {
+						s.Resp = 1 // (nil, nil)
+					}
+					c := lcase{Fam: "nil-plugin", Entry: entry, OCI: doc(2, l), Blob: doc(2, l), PM: pm, Impl: implCfg{Kind: 1}, Sc: s}
+					c.Blob.Global = (li+ci)%2 == 0
+					if entry == "NVerify" {
+						good := okSc()
+						c.N = nreqCfg{Max: 3, Ref: 2, Items: []scCfg{s, good}}
+					}
+					put(c)
+				}
+			}
+		}
+	}
+
 	// ---- random scenarios ----
 	nScen := 900
 	if thorough {
@@ -697,6 +723,8 @@ func genLattice(a *Args, r *Rng, emit func(c *lcase), history func(base lcase, s
 	umOK := func(s *scCfg) { s.MetaReq, s.Payload = true, 2 }
 	umBad := func(s *scCfg) { s.MetaReq, s.Payload = true, 3 }
 	metaErr := func(c *lcase) { c.Entry = "Verify"; c.Sc.PAttr = 2; c.PM = pmCfg{Kind: 2, Meta: 0} }
+	metaNil := func(c *lcase) { c.Entry = "Verify"; c.Sc.PAttr = 2; c.PM = pmCfg{Kind: 2, Meta: 1} }
+	respNil := func(c *lcase) { c.Entry = "VerifyBlob"; c.Sc.PAttr = 2; c.Sc.Resp = 1; c.PM = pmOK("TI", "Rev") }
 	metaOK := func(c *lcase) { c.Entry = "Verify"; c.Sc.PAttr = 2; c.Sc.Crit = true; c.PM = pmOK("TI", "Rev") }
 	notInstalled := func(c *lcase) { c.Entry = "VerifyBlob"; c.Sc.PAttr = 2; c.PM = pmCfg{Kind: 1} }
 	respErr := func(c *lcase) { c.Entry = "Verify"; c.Sc.PAttr = 2; c.Sc.Resp = 0; c.PM = pmOK("TI") }
@@ -720,7 +748,7 @@ func genLattice(a *Args, r *Rng, emit func(c *lcase), history func(base lcase, s
 	}
 	scripts := [][]func(c *lcase){
 		{metaErr, metaOK, metaErr, plain("Verify"), metaOK},
-		{notInstalled, metaOK, respErr, metaOK, tiFail, metaOK},
+		{notInstalled, metaOK, respErr, metaOK, tiFail, metaOK, metaNil, metaOK, respNil, metaOK},
 		{plain("Verify"), untrusted, plain("Verify"), storeErr, plain("VerifyBlob"), revoked, plain("Verify"), revErr, plain("NVerifyBlob"), revNilNil, plain("Verify"), revNilEntry, plain("VerifyBlob")},
 		{plain("SkipVerify"), otherRepoSkip, plain("SkipVerify"), otherRepo, plain("Verify"), otherName, plain("VerifyBlob"), plain("NVerify")},
 		{otherRepo, plain("NVerify"), otherName, plain("NVerifyBlob"), otherRepoSkip, plain("SkipVerify")},
